@@ -67,7 +67,9 @@ def generate(rng, tier, seed):
     # every byte position carries the variant only at 0, 8, 16: all 32 variants x 3 sizes on structured keys
     for size in (8, 16, 24):
         for variant in range(32):
-            for key in (bytes(size), bytes([0xFF]) * size, bytes(range(size))):
+            odd = bytes((b & 0xFE) | (1 ^ (bin(b & 0xFE).count("1") % 2)) for b in (rng.getrandbits(8) for _ in range(size)))   # a real DES key: every byte of odd parity
+            even = bytes(b ^ 1 for b in odd)
+            for key in (bytes(size), bytes([0xFF]) * size, bytes(range(size)), odd, even, bytes.fromhex("0123456789ABCDEFFEDCBA98765432100123456789ABCDEF")[:size]):
                 c = Case("apply_key_variant:structured", {"size": size, "variant": variant})
                 r = c.call("des.apply_key_variant", key, variant)
                 if r.ok:
